@@ -57,7 +57,7 @@ def build() -> Check:
         if any(is_suspend(prog, t) for t in traces):
             ck.ob("R1.record-before-suspend", f"{ci.module.relpath.split('aws_durable_execution_sdk_python/')[-1]}:{ci.name}", not bad,
                   (bad[0][0] + ": " + trace_sig(bad[0][1])) if bad else "", cell=st)
-    ck.floor("suspending_paths", n_susp, 30)
+    ck.floor("suspending_paths", n_susp, 8)
 
     # R2 suspend decision --------------------------------------------------------------------------
     cex = prog.cls("concurrency.executor", "ConcurrentExecutor")
@@ -145,7 +145,7 @@ def build() -> Check:
                 if c.endswith("ChildOperationExecutor.execute"):
                     ok = ok and len(h.body) >= 1 and isinstance(h.body[-1], ast.Raise) and h.body[-1].exc is None
                 ck.ob("R3.who-may-catch-suspension", c, ok, f"`except {ast.unparse(h.type) if h.type else ''}` can catch SuspendExecution here", where=f"line {h.lineno}")
-    ck.floor("suspension_handlers", n_h, 3)
+    ck.floor("suspension_handlers", n_h, 2)
     wt = wrapper_traces(pm, faults=False, outcomes=["return", SUSPEND_FQ, "aws_durable_execution_sdk_python.exceptions.TimedSuspendExecution"])
     wrapper = prog.func("execution", "durable_execution.<locals>.wrapper")
     bad = []
@@ -189,7 +189,7 @@ def build() -> Check:
                 unbounded = False  # OrderedLock.acquire is judged at its own wait
             if unbounded:
                 found[(fn_construct(fi), f"{recv}.{m}")] = c.lineno
-    ck.floor("unbounded_blocking_calls", len(found), 5)
+    ck.floor("unbounded_blocking_calls", len(found), 3)
     for (c, call), line in sorted(found.items()):
         ck.ob("R4.blocking-call-registered", c, (c, call) in BLOCKING_REGISTRY,
               f"unbounded blocking call {call}() is not registered with a wake-up argument", where=f"line {line}", cell=call)
